@@ -693,4 +693,100 @@ theorem uvarintEncF_length_le (f x : Nat) : (uvarintEncF f x).length ≤ f + 1 :
     · simp
     · simp; exact ih _
 
+/-- the loop bound of `uvarintEncF` is never what stops it: once the fuel covers the value, more fuel changes nothing -/
+theorem uvarintEncF_fuel_succ (f : Nat) : ∀ x, x < 2 * 128 ^ f → uvarintEncF (f + 1) x = uvarintEncF f x := by
+  induction f with
+  | zero =>
+    intro x hx
+    have : x < 128 := by simp at hx; omega
+    simp [uvarintEncF, this]
+  | succ f ih =>
+    intro x hx
+    by_cases hlt : x < 128
+    · simp [uvarintEncF, hlt]
+    · have hdiv : x / 128 < 2 * 128 ^ f := by
+        apply Nat.div_lt_of_lt_mul
+        rw [Nat.pow_succ] at hx
+        omega
+      have := ih (x / 128) hdiv
+      rw [uvarintEncF, if_neg hlt, this]
+      conv => rhs; rw [uvarintEncF, if_neg hlt]
+
+theorem uvarintEncF_fuel (x : UInt64) (k : Nat) : uvarintEncF (9 + k) x.toNat = uvarintEnc x := by
+  induction k with
+  | zero => rfl
+  | succ k ih =>
+    have hx : x.toNat < 2 * 128 ^ (9 + k) := by
+      have h1 := x.toNat_lt
+      have h2 : 128 ^ 9 ≤ 128 ^ (9 + k) := Nat.pow_le_pow_right (by omega) (by omega)
+      omega
+    rw [← ih, ← uvarintEncF_fuel_succ (9 + k) x.toNat hx]; rfl
+
+/-! ### histories -/
+theorem history_refines_fifo (ops : List BOp) (hops : ∀ o ∈ ops, o.valid) (q : List Val) (hq : ∀ v ∈ q, Valid v) :
+    history (q.flatMap enc) q ops = ((fifoSpec q ops).1.map .ok, (fifoSpec q ops).2.flatMap enc) := by
+  induction ops generalizing q with
+  | nil => simp [history, fifoSpec]
+  | cons o ops ih =>
+    have hrest : ∀ o' ∈ ops, o'.valid := fun o' h => hops o' (by simp [h])
+    cases o with
+    | w v =>
+      have hv : Valid v := hops (.w v) (by simp)
+      have hw := writeOk_of_valid v hv
+      simp only [history, fifoSpec, write, hw, if_true]
+      have := ih hrest (q ++ [v]) (by intro u hu; simp at hu; rcases hu with hu | hu; exact hq u hu; exact hu ▸ hv)
+      simpa using this
+    | r =>
+      cases q with
+      | nil => simpa [history, fifoSpec] using ih hrest [] (by simp)
+      | cons v q =>
+        have hv : Valid v := hq v (by simp)
+        have h1 : decBuf (tyOf v) ((v :: q).flatMap enc) = (.ok v, q.flatMap enc) := by
+          simpa using roundtrip_one v (q.flatMap enc) hv
+        simp only [history, fifoSpec, h1]
+        rw [ih hrest q (fun u hu => hq u (by simp [hu]))]
+        simp
+
+
+/-- with the `ErrUnexpectedEOF → ErrByteBufferEmpty` mapping the raw read agrees with the buffer also in the error kind -/
+theorem streamRead_exact (c : Cfg) (hc : c.strategy = .full) (hm : c.mapShort = true) (n : Nat) (s : Src) :
+    (streamRead c n s).1 = (bufRead n s.flat).1 := by
+  obtain ⟨p1, p2⟩ := pull_spec n s.chunks
+  have p1' : (pull n s.chunks).1 = s.flat.take n := p1
+  unfold streamRead bufRead
+  by_cases h0 : n = 0
+  · simp [h0]
+  · simp only [h0, if_false, hc, hm, if_true]
+    rw [p1']
+    generalize s.flat = bs at *
+    by_cases hlen : bs.length < n
+    · have hl : ¬ (bs.take n).length = n := by rw [List.length_take]; omega
+      rw [if_neg hl]
+      cases bs with
+      | nil => simp
+      | cons a t =>
+        have : (List.take n (a :: t)).isEmpty = false := by
+          cases n with
+          | zero => omega
+          | succ n => rfl
+        have hlen' : t.length + 1 < n := by simpa using hlen
+        simp [this, hlen']
+    · have hl : (bs.take n).length = n := by rw [List.length_take]; omega
+      rw [if_pos hl]
+      cases bs with
+      | nil => simp at hlen; omega
+      | cons a t =>
+        have hlen' : ¬ t.length + 1 < n := by simpa using hlen
+        simp [hlen']
+
+theorem decStream_exact (c : Cfg) (hc : c.strategy = .full) (hm : c.mapShort = true) (ty : Ty)
+    (hty : ty.fixedLike = true) (s : Src) : (decStream c ty s).1 = (decBuf ty s.flat).1 := by
+  have hr := fun n => streamRead_exact c hc hm n s
+  cases ty <;> simp [Ty.fixedLike] at hty <;>
+    simp only [decStream, decBuf, streamFixed, bufFixed, bufReadByte_eq, Out.map_map, hr, streamReadN]
+  case readN n =>
+    by_cases hn : n ≤ 0
+    · simp [hn, Out.map]
+    · simp [hn, hr]
+
 end Nv.C10
